@@ -628,6 +628,43 @@ class Sim:
             return {"kind": "multi", "X": m.train_inputs.numpy().copy(), "Y": m.train_targets.numpy().copy()}
         return None
 
+    def check_gp_posterior(self):
+        """C15 in-run: after each evaluating phase the real GP model's prediction at the design
+        points equals the closed-form posterior of the data it reports to hold."""
+        from .machines.c15 import read_hyper, ref_predict
+
+        a = self.a
+        m = getattr(a, "model", None)
+        if m is None or hasattr(m, "design_samples") or not hasattr(m, "train_inputs"):
+            return
+        kind = "list" if isinstance(m.train_inputs, list) else ("corr" if type(m).__name__.startswith("Correlated") else "indep")
+        pts = np.asarray(a.design_space.points if hasattr(a, "design_space") else a.points, float)
+        if len(pts) > 40:
+            pts = pts[:40]
+        d, mm = m.input_dim, m.output_dim
+        if kind == "list":
+            data = [(m.train_inputs[o].numpy().copy(), m.train_targets[o].numpy().copy()) for o in range(mm)]
+            n = sum(len(x) for x, _ in data)
+        else:
+            data = (m.train_inputs.numpy().copy(), m.train_targets.numpy().copy())
+            n = len(data[0])
+        if n > 150 or (kind == "corr" and n == 0):
+            return
+        try:
+            mu, cov = m.predict(pts)
+        except Exception:
+            return
+        h = read_hyper(m, kind)
+        rmu, rcov = ref_predict(kind, h, data, pts, d, mm)
+        ysc = 1.0 + (float(np.max(np.abs(np.concatenate([y for _, y in data])))) if kind == "list" and n else (float(np.max(np.abs(data[1]))) if kind != "list" and n else 0.0))
+        vsc = float(max(h["os"])) if kind == "list" else (float(np.max(h["os"])) if kind == "indep" else float(np.max(np.diag(h["B"]))))
+        self.judge("C15", "in-run-posterior")
+        mu, cov = np.asarray(mu, float), np.asarray(cov, float)
+        if mu.shape != rmu.shape or cov.shape != rcov.shape:
+            self.violate("C15", "predict-shape", {"mean": list(mu.shape), "cov": list(cov.shape)})
+        elif np.max(np.abs(mu - rmu)) > 1e-6 * ysc or np.max(np.abs(cov - rcov)) > 1e-6 * vsc:
+            self.violate("C15", "posterior-differs-from-closed-form:" + kind, {"n_train": n, "max_mean_err": float(np.max(np.abs(mu - rmu))), "max_cov_err": float(np.max(np.abs(cov - rcov)))})
+
     def pred_var(self):
         """Posterior variances (N, m) of a real GP model at all design points (None otherwise)."""
         a = self.a
@@ -781,6 +818,8 @@ class Sim:
                         break
         if self.stub is not None and rows and self.stub.pending != 0:
             self.violate("C07", "observations-not-committed-to-the-model", {"pending_add_sample_calls": int(self.stub.pending)})
+        if "C15" in self.props and self.stub is None:
+            self.check_gp_posterior()
         # --- rows appended to the model are exactly the returned observations ---------------
         post = self.model_snapshot()
         mp = pre["model"]
